@@ -38,7 +38,10 @@ fire("C06", N, "                _nested=False,\n", "")
 fire("C06", N, "return cast(T, NoArg())", "return x")
 fire("C06", N, "replace(x, _index_override=None, constant=normalize(x.constant))", "replace(x, _index_override=None)")
 fire("C06", N, "if isinstance(x, (Name, Varname, Cellvar)):", "if isinstance(x, (Name, Varname)):")
-silent(["C06", "C05"], N, "_line_offsets_override=tuple(),", "_line_offsets_override=(),")
+silent(["C06", "C05"], N, "                    o for o in x._line_offsets_override if o != 0\n", "                    o for o in x._line_offsets_override if o\n", "same restriction, by truthiness of an int")
+fire("C05", N, "                _line_offsets_override=tuple(\n                    o for o in x._line_offsets_override if o != 0\n                ),\n", "                _line_offsets_override=tuple(),\n", "the original defect: entries that fire a line event cleared (R05.T)")
+fire("C06", N, "                    o for o in x._line_offsets_override if o != 0\n", "                    o for o in x._line_offsets_override if o > 0\n", "negative steps dropped, positive kept: the line of the next entries moves (R06.1 / R06.N)")
+fire("C06", N, "                _line_offsets_override=tuple(\n                    o for o in x._line_offsets_override if o != 0\n                ),\n", "", "the field is not touched at all: zero entries survive (R06.1)")
 fire("C05", N, "                arg=normalize(x.arg),", "                arg=normalize(x.arg),\n                line_number=None,")
 fire("C05", B, "if docstring_is_none and first_const and arg_is_string and no_override:", "if docstring_is_none and first_const and no_override and False:")
 fire("C05", B, "isinstance(block_type, Function) and block_type.docstring is None\n        )", "isinstance(block_type, Function) and not block_type.docstring\n        )")
